@@ -35,6 +35,17 @@ ANCHOR = {"variable": "variable", "bound": "boundprocedure", "final": "finalproc
 # pages `name~2.html` ...): procedures / programs / block data of different executables, types and
 # interfaces of different modules.  Modules (ancestor lookup by name) and namelists (located by name) stay unique.
 DUP_PAGE_DIRS = {"proc", "program", "type", "interface", "blockdata"}
+# free-form extensions FORD reads by default (`preprocess: false` in the harness, so the capital ones are plain sources)
+FREE_EXT = ["f90", "f90", "f90", "f95", "f03", "f08", "F90"]
+
+
+def aupper(s):
+    """upper-case the ASCII letters only (the model's `lower` is ASCII; FORD's is `str.lower`)"""
+    return "".join(c.upper() if "a" <= c <= "z" else c for c in s)
+
+
+def alower(s):
+    return "".join(c.lower() if "A" <= c <= "Z" else c for c in s)
 
 
 class Gen:
@@ -66,6 +77,14 @@ class Gen:
                 nm = self.rng.choice(self.used).lower()
             else:
                 nm = self.rng.choice(BASE_NAMES) + (str(self.rng.randint(1, 9)) if self.rng.random() < 0.5 else "")
+                # Fortran names are letters, digits and underscores (round 3: the underscore was never produced)
+                r = self.rng.random()
+                if r < 0.18:
+                    nm += "_" + self.rng.choice(BASE_NAMES)[:3]
+                elif r < 0.26:
+                    nm += "_" + str(self.rng.randint(0, 99))
+                elif r < 0.32:
+                    nm += "_"
             if nm in sib:
                 continue
             if page_dir is not None and nm in self.page_names.setdefault(page_dir, set()):
@@ -77,6 +96,33 @@ class Gen:
             self.used.append(nm)
             return nm
         raise RuntimeError("names exhausted")
+
+    def file_name(self, i, seen):
+        """Name of the i-th source file.  A source file is a documented link target (kind "file") and its
+        name is a *file* name: it may start with a digit or an underscore, carry capitals, letters outside
+        ASCII, a hyphen or several dots."""
+        rng = self.rng
+        for _ in range(100):
+            b, b2 = rng.choice(BASE_NAMES), rng.choice(BASE_NAMES)
+            d = str(rng.randint(0, 9))
+            ext = rng.choice(FREE_EXT)
+            r = rng.random()
+            if r < 0.28:
+                nm = f"src{i + 1}.f90"
+            elif r < 0.55:      # starts with a digit
+                nm = rng.choice([f"{d}{b}", f"{d}d_{b}", f"{d}{rng.randint(0, 9)}", f"{d}_{b}", f"{d}{b.upper()}"]) + "." + ext
+            elif r < 0.72:      # underscores, capitals
+                nm = rng.choice([f"{b}_{b2}", f"_{b}", f"{b}_", f"{b.capitalize()}{d}", f"{b}{d}_{d}"]) + "." + ext
+            elif r < 0.80:      # letters outside ASCII (lower case only: see `aupper`)
+                nm = rng.choice([f"{b}\u00e9", f"\u00fc{b}", f"{d}\u00f1{b}_{d}"]) + "." + ext
+            elif r < 0.91:      # hyphen
+                nm = rng.choice([f"{b}-{b2}", f"{d}{b}-{d}"]) + "." + ext
+            else:               # several dots
+                nm = rng.choice([f"{b}.v{d}", f"{b}.{b2}.{d}"]) + "." + ext
+            if nm.lower() not in seen:
+                seen.add(nm.lower())
+                return nm
+        raise RuntimeError("file names exhausted")
 
     def ent(self, kind, scope, name=None, **kw):
         page_dir = PAGE_DIR.get(kind) if kw.pop("page", True) else None
@@ -150,9 +196,17 @@ class Gen:
         P = {"files": [], "proc_internals": rng.random() < 0.5,
              "display": rng.choice([["public"], ["public"], ["public", "private", "protected"], ["public", "protected"]])}
         nfiles = rng.choice([1, 2, 2, 3]) if self.size > 1 else 1
+        seen = set()
         for i in range(nfiles):
-            f = self.ent("file", None, name=f"src{i + 1}.f90")
+            f = self.ent("file", None, name=self.file_name(i, seen))
             P["files"].append(f)
+        # a non-Fortran source file (`extra_filetypes`): listed with the source files, a link target of kind "file"
+        P["extra_files"] = []
+        if rng.random() < 0.3:
+            b = rng.choice(BASE_NAMES)
+            nm = rng.choice([f"{rng.randint(1, 9)}rdparty", f"{b}_defs", b, f"{rng.randint(0, 9)}{b}"]) + ".inc"
+            if nm.lower() not in seen:
+                P["extra_files"].append(self.ent("file", None, name=nm, extra=True))
         for i in range(rng.choice([1, 2, 2, 3])):
             self.module(rng.choice(P["files"]))
         # program units and external procedures: every file may hold its own program plus helpers, and the
@@ -355,7 +409,17 @@ def render_project(P):
                 out.append(f"end block data {u['name']}")
             out.append("")
         files[f["name"]] = "\n".join(out) + "\n"
+    for f in P.get("extra_files", []):
+        files[f["name"]] = "! shared declarations\n      integer ncommon\n"
     return files
+
+
+def project_options(P):
+    """the settings a generated project needs"""
+    o = {"proc_internals": "true" if P["proc_internals"] else "false", "display": P["display"]}
+    if P.get("extra_files"):
+        o["extra_filetypes"] = "inc !"
+    return o
 
 
 # ---------------------------------------------------------------------- the documented lookup (oracle side)
@@ -559,7 +623,7 @@ def spellings(rng, t, hidden_or_absent=False):
 
     def case(n):
         r = rng.random()
-        return n.upper() if r < 0.15 else n.lower() if r < 0.3 else n
+        return aupper(n) if r < 0.15 else alower(n) if r < 0.3 else n
 
     ck = COMPONENT_KINDS.get(t["kind"])
     if t["page_dir"] is not None and ck:
